@@ -164,9 +164,9 @@ def run(ctx):
     off = ctx.seed
     L, LF = ("LawsHoldOnSpec",), ("LawsHoldOnSpec", "FastAgreesWithDag")
     if ctx.quick:
-        plan = [("<=4 revisions, ghost", hc.gen_cfg(1, 4, 2, 1, 2, off), LF, True, True),
-                ("5 revisions", hc.gen_cfg(5, 5, 2, 0, 24, off), L, True, False)]
-        remote_every, pack_every = 10, 8
+        plan = [("<=4 revisions, ghost", hc.gen_cfg(1, 4, 2, 1, 3, off), LF, True, True),
+                ("5 revisions", hc.gen_cfg(5, 5, 2, 0, 40, off), L, True, False)]
+        remote_every, pack_every = 12, 8
     else:
         plan = [("<=4 revisions, ghost", hc.gen_cfg(1, 4, 2, 1), LF, True, True),
                 ("5 revisions", hc.gen_cfg(5, 5, 2, 0, 2, off), L, True, False),
